@@ -99,6 +99,28 @@ class Ctx:
                 rc = -9
         return rc, outp
 
+    def apalache_inductive(self, module, init, inv, timeout=900):
+        """Apalache: Init => inv (length 0) and inv /\ Next => inv' (from `init` = the invariant, length 1).
+        Both must report NoError; anything else is a tool error (the specification, not the code, would be wrong)."""
+        outs = []
+        for (ini, length) in ((None, 0), (init, 1)):
+            d = self.work / f"apalache-{module}-{length}"
+            d.mkdir(exist_ok=True)
+            cmd = ["apalache-mc", "check", f"--inv={inv}", f"--length={length}", f"--out-dir={d}", f"--run-dir={d}"]
+            if ini:
+                cmd.append(f"--init={ini}")
+            cmd.append(str(SPEC / f"{module}.tla"))
+            try:
+                p = run(cmd, timeout=timeout, cwd=d)
+            except subprocess.TimeoutExpired:
+                raise ToolError(f"apalache timed out on {module} (length {length})")
+            text = (p.stdout or "") + (p.stderr or "")
+            if "The outcome is: NoError" not in text:
+                raise ToolError(f"apalache does not confirm {inv} on {module} (length {length}):\n{text[-2500:]}")
+            outs.append(f"length {length}: NoError")
+            shutil.rmtree(d, ignore_errors=True)
+        self.coverage.setdefault("apalache", []).append({"module": module, "invariant": inv, "result": outs})
+
     def tlc_mc(self, module, cfg, workers=8, timeout=900, must_cover=(), expect_violation=None, heap="12g"):
         """Exhaustive run of spec/<module>.tla with spec/<cfg>. Returns dict(states, distinct, coverage).
         expect_violation: name of an invariant/property that MUST be violated (non-vacuity configs)."""
